@@ -143,23 +143,16 @@ def _state(s):
     return read_state_text(s.serialize())
 
 
-def convert(job):
-    """job: domain_text, problem_text, plan_text, agents, flag"""
-    out = {"nums": number_table(job["domain_text"])}
+def _convert_with(domain, problem, pc, plan_text, agents, flag, ppath, out):
+    """the observations of one conversion: the sequential run of the extracted actions, the conversion, the joint run.
+    'intact': the agent list OBJECT, the plan file and the problem's initial state are as before the call"""
+    agents_before = list(agents)
+    init_before = _state(create_initial_state(problem))
+    intact = True
     try:
-        domain, problem = _load(job)
-    except Exception as e:  # noqa
-        out["load_raised"] = exc(e)
-        return out
-    out["objects"] = [[n, o.type.name] for n, o in problem.objects.items()]
-    out["init"] = _state(create_initial_state(problem))
-    agents, flag = job["agents"], job["flag"]
-    ppath = _tmp(job["plan_text"], ".txt")
-    try:
-        pc = PlanConverter(domain)
         # the sequential run of the extracted actions
         try:
-            extracted = pc._extract_plan_actions(job["plan_text"], agents)
+            extracted = pc._extract_plan_actions(plan_text, agents)
             out["extracted"] = [[a.name] + list(a.parameters) for a, _ in extracted]
             s = create_initial_state(problem)
             for a, _ in extracted:
@@ -185,4 +178,63 @@ def convert(job):
             out["joint_final"] = exc(e)
         return out
     finally:
+        try:
+            intact = (list(agents) == agents_before and _state(create_initial_state(problem)) == init_before
+                      and Path(ppath).read_text() == plan_text)
+        except Exception:  # noqa
+            intact = False
+        out["intact"] = intact
+
+
+def convert(job):
+    """job: domain_text, problem_text, plan_text, agents, flag"""
+    out = {"nums": number_table(job["domain_text"])}
+    try:
+        domain, problem = _load(job)
+    except Exception as e:  # noqa
+        out["load_raised"] = exc(e)
+        return out
+    out["objects"] = [[n, o.type.name] for n, o in problem.objects.items()]
+    out["init"] = _state(create_initial_state(problem))
+    ppath = _tmp(job["plan_text"], ".txt")
+    try:
+        return _convert_with(domain, problem, PlanConverter(domain), job["plan_text"], job["agents"], job["flag"], ppath, out)
+    finally:
         ppath.unlink()
+
+
+def sequence(job):
+    """ONE process, objects reused: the domain is parsed once, every problem once with that Domain object, ONE
+    PlanConverter converts every plan, one plan-file path is rewritten, equal agent lists are the same list object.
+    job: domain_text, problems [text], steps [{problem, plan_text, agents, flag}]"""
+    nums = number_table(job["domain_text"])
+    dpath = _tmp(job["domain_text"], ".pddl")
+    try:
+        domain = DomainParser(dpath).parse_domain()
+    finally:
+        dpath.unlink()
+    problems = []
+    for text in job["problems"]:
+        ppath = _tmp(text, ".pddl")
+        try:
+            problems.append(ProblemParser(ppath, domain).parse_problem())
+        finally:
+            ppath.unlink()
+    pc = PlanConverter(domain)
+    plan_path = _tmp("", ".txt")
+    agent_lists = {}
+    outs = []
+    try:
+        for st in job["steps"]:
+            problem = problems[st["problem"]]
+            out = {"nums": dict(nums)}
+            out["objects"] = [[n, o.type.name] for n, o in problem.objects.items()]
+            out["init"] = _state(create_initial_state(problem))
+            agents = agent_lists.setdefault(tuple(st["agents"]), list(st["agents"]))
+            if agents != list(st["agents"]):               # an earlier call changed the shared list: recorded there
+                agents = agent_lists[tuple(st["agents"])] = list(st["agents"])
+            plan_path.write_text(st["plan_text"])
+            outs.append(_convert_with(domain, problem, pc, st["plan_text"], agents, st["flag"], plan_path, out))
+    finally:
+        plan_path.unlink()
+    return {"steps_out": outs}
